@@ -24,6 +24,23 @@ def select_patterns(body, kq):
     for t in out: uniq[t.get_id()] = t
     return list(uniq.values())[:4]
 
+def mk_forall(vs, body, pats):
+    """ForAll with explicit triggers; triggers z3 rejects (interpreted heads, if-then-else inside) are dropped one by one"""
+    good = []
+    def has_ite(t, seen):
+        if t.get_id() in seen: return False
+        seen.add(t.get_id())
+        if z3.is_app(t) and t.decl().kind() == z3.Z3_OP_ITE: return True
+        return any(has_ite(c, seen) for c in t.children())
+    for p in pats or []:
+        if has_ite(p, set()):
+            continue
+        try:
+            z3.ForAll(vs, body, patterns=[p]); good.append(p)
+        except z3.Z3Exception:
+            pass
+    return z3.ForAll(vs, body, patterns=good) if good else z3.ForAll(vs, body)
+
 def normalize_index(formula, kq):
     """If every array read that mentions the bound variable k has the index k + c for one and the same k-free term c, re-express the
     quantifier over the absolute index j = k + c: facts about a sub-slice x[a:] and goals about x then share the trigger
@@ -292,9 +309,9 @@ class SpecMixin:
                     if norm is not None:
                         jq, full2 = norm
                         pats = select_patterns(full2, jq)
-                        return z3.ForAll([jq], full2, patterns=pats) if pats else z3.ForAll([jq], full2)
+                        return mk_forall([jq], full2, pats)
                     pats = select_patterns(body, kq)
-                    return z3.ForAll([kq], full, patterns=pats) if pats else z3.ForAll([kq], full)
+                    return mk_forall([kq], full, pats)
                 return z3.Exists([kq], z3.And(rng, body))
             body = self.sev(env2, args[1])
             return z3.ForAll([kq], body) if name == 'forall' else z3.Exists([kq], body)
@@ -368,7 +385,11 @@ class SpecMixin:
             fr = env.st.meta.get('fresh_arrs', set())
             if env.st.meta.get('concrete'):
                 raise Unsupported('fresharr is not observable on a concrete run')
-            return z3.BoolVal(x.arr.get_id() in fr)
+            if getattr(env, 'assume_mode', False):     # callee contract at a call site: the result's array is a new one for the caller too
+                arrs = x.arrs if isinstance(x, SliceV) else [x.arr]
+                env.st.meta['fresh_arrs'] = set(fr) | {a.get_id() for a in arrs}
+                return z3.BoolVal(True)
+            return z3.BoolVal((x.arrs[0] if isinstance(x, SliceV) else x.arr).get_id() in fr)
         if name == 'samearr':
             x, y = self.sev(env, args[0]), self.sev(env, args[1])
             return z3.And([a == b for a, b in zip(x.arrs, y.arrs)] + [x.off == y.off]) if isinstance(x, SliceV) else z3.And(x.arr == y.arr, x.off == y.off)
@@ -418,6 +439,17 @@ class SpecMixin:
         if name == 'freshobj':     # the array was allocated by this call
             x = self.sev(env, args[0])
             return z3.BoolVal(bool(getattr(x, 'isfresh', False)))
+        if name == 'asptr':        # asptr(r, "pkg.Type"): the pointer to the object with reference r, typed *pkg.Type
+            r = self.sev(env, args[0])
+            tn = args[1][1].decode() if isinstance(args[1][1], bytes) else args[1][1]
+            cache = self.__dict__.setdefault('_named_tids', {})
+            if tn not in cache:
+                for tid in range(len(self.tt.t)):
+                    if self.tt.kind(tid) == 'struct' and self.tt.name(tid) == tn:
+                        cache[tn] = tid; break
+                else:
+                    raise Unsupported('asptr: no struct type named %s in the type table' % tn)
+            return PtrV(r, cache[tn])
         if name == 'newobj':       # newobj(p): the object p points to was allocated during the call
             x = self.sev(env, args[0])
             if isinstance(x, IfaceV) and isinstance(getattr(x, 'concrete', None), PtrV): x = x.concrete
